@@ -51,6 +51,11 @@ var c05Templates = []c05Template{
 		[]string{"DELETE FROM t1 WHERE id = %%%%VALUE%%%%"}},
 	{"ins_t1", "insert", []string{"t1"}, "INSERT INTO t1 (id, plain) VALUES (%d, 'fixed')",
 		[]string{"INSERT INTO t1 (id, plain) VALUES (%%%%VALUE%%%%, 'fixed')"}},
+	// statements over several tables: a table rule denies when any of them is listed and allows when all are
+	{"join_t2_t1", "select", []string{"t2", "t1"}, "SELECT t2.id, t1.plain FROM t2 JOIN t1 ON t2.id = t1.id WHERE t2.id = %d", nil},
+	{"comma_t2_t1", "select", []string{"t2", "t1"}, "SELECT t2.id, t1.plain FROM t2, t1 WHERE t2.id = %d", nil},
+	{"join_nested", "select", []string{"t2", "t1", "t3"}, "SELECT t2.id FROM t2 JOIN (t1 JOIN t3 ON t1.id = t3.id) ON t2.id = t1.id WHERE t2.id = %d", nil},
+	{"join_group", "select", []string{"t3", "t2", "t1"}, "SELECT t3.id FROM t3 JOIN (t2, t1) ON t3.id = t2.id WHERE t3.id = %d", nil},
 	// several statements in one simple Query message: not one parsable statement
 	{"multi", "garbage", nil, "SELECT id, note FROM t2 WHERE id = %d; SELECT id, c1 FROM t1 WHERE id = 1", nil},
 	{"garbage", "garbage", nil, "SELEC id FRM t2 WHERE id = %d", nil},
@@ -206,13 +211,13 @@ func c05Chain(r *kernel.RNG, stmts []c05Stmt) []c05Handler {
 					}
 				}
 			case 1:
-				h.Tables = []string{r.Pick("t1", "t2")}
+				h.Tables = []string{r.Pick("t1", "t2", "t3")}
 				if r.Chance(1, 3) {
-					h.Tables = []string{"t1", "t2"}
+					h.Tables = [][]string{{"t1", "t2"}, {"t1", "t2"}, {"t2", "t3"}, {"t1", "t3"}, {"t1", "t2", "t3"}}[r.Intn(5)]
 				}
 			case 2:
 				t := c05Templates[r.Intn(len(c05Templates))]
-				for t.kind == "garbage" {
+				for t.kind == "garbage" || len(t.patterns) == 0 {
 					t = c05Templates[r.Intn(len(c05Templates))]
 				}
 				h.Patterns = []c05Pat{{Text: strings.ReplaceAll(t.patterns[r.Intn(len(t.patterns))], "%%%%", "%%"), Template: t.name}}
@@ -272,6 +277,7 @@ func (C05) Run(t *testing.T, plan *kernel.Plan, keepLog bool) *kernel.Result {
 		defer pw.Censor.ReleaseAll()
 		pw.DB.AddTable("t1", Col{"id", TInt4}, Col{"plain", TText}, Col{"c1", TBytea})
 		t2 := pw.DB.AddTable("t2", Col{"id", TInt4}, Col{"note", TText})
+		pw.DB.AddTable("t3", Col{"id", TInt4}, Col{"note", TText})
 		// rows the selects can find; they were written earlier, not in this session
 		for _, s := range stmts {
 			t2.Rows = append(t2.Rows, [][]byte{[]byte(fmt.Sprint(s.marker)), []byte(fmt.Sprintf("note-%d", s.marker))})
